@@ -15,6 +15,7 @@ import random
 import subprocess
 import sys
 
+import math
 import numpy as np
 
 import common
@@ -426,8 +427,10 @@ def atom_roundtrip_stream(ctx, rng, count, given=None):
         except Exception as e:  # noqa: BLE001
             bad.append(('building / solving a Problem with %s atoms raised %s' % (kind, type(e).__name__), rep))
             continue
-        if st1 != 'solved':
-            ctx.incon('atom-roundtrip: status %s' % st1)
+        if st1 != 'solved' or not math.isfinite(float(v1)):
+            # (an infeasible draw - e.g. a small ball far from where the exponentials are small - is reported as (solved, -inf) with
+            # NaN values, rightly: no verdict)
+            ctx.incon('atom-roundtrip: status %s, value %s' % (st1, 'finite' if math.isfinite(float(v1)) else 'not finite'))
             continue
         ncols = prob.A.shape[1]
         listed = sum(int(v.size) for v in prob.all_variables)
